@@ -534,6 +534,7 @@ func runC03(cases string, res *Result) {
 		}
 	})
 	res.Hist["cases_with_map_of_3_or_more_entries"] = mapCases3
+	c03DateValues(res, dateEng)
 	for _, cl := range []string{"hash-duplicate-key", "key-string-collision", "toplevel-address", "merge-filter-key-collision"} {
 		bad := 0
 		for _, f := range res.Findings {
@@ -675,4 +676,99 @@ func runC03Child(cases string, res *Result) {
 		ctx := c03BuildCtx(c, 0, rng)
 		res.Notes = append(res.Notes, fmt.Sprintf("%d %s", id, hx(c03Render(eng, ctx))))
 	})
+}
+
+// c03DateValues: fixed instants (the Unix epoch, the year 1, leap days, zones, far future; as time.Time, *time.Time
+// and in the string spellings the filter parses) through the date filter with several formats. A fixed value is
+// not "the current date": the output must be the value formatted (reference: Go's time.Format with the layout of
+// the proved conversion, as the hook computes it) and must not change while the clock advances -- every case is
+// rendered again after one pause of 1.1 s for the whole stream.
+func c03DateValues(res *Result, eng *twig.Engine) {
+	cet := time.FixedZone("CET", 3600)
+	type dv struct {
+		name string
+		v    interface{}
+		t    time.Time
+	}
+	mk := func(name string, t time.Time) []dv {
+		tt := t
+		return []dv{{name, t, t}, {name + " (pointer)", &tt, t}}
+	}
+	var vals []dv
+	for _, x := range []struct {
+		n string
+		t time.Time
+	}{
+		{"unix epoch", time.Unix(0, 0).UTC()}, {"unix epoch in CET", time.Unix(0, 0).In(cet)}, {"one second after the epoch", time.Unix(1, 0).UTC()},
+		{"one second before the epoch", time.Unix(-1, 0).UTC()}, {"year 1", time.Date(1, 1, 1, 0, 0, 1, 0, time.UTC)}, {"leap day", time.Date(2024, 2, 29, 23, 59, 59, 0, time.UTC)},
+		{"far future", time.Date(9999, 12, 31, 23, 59, 59, 0, time.UTC)}, {"2001-09-09 (unix 10^9)", time.Unix(1000000000, 0).UTC()}, {"midnight", time.Date(2020, 6, 1, 0, 0, 0, 0, cet)},
+		{"noon", time.Date(2020, 6, 1, 12, 0, 0, 0, time.UTC)}, {"before 1970", time.Date(1969, 7, 20, 20, 17, 40, 0, time.UTC)},
+	} {
+		vals = append(vals, mk(x.n, x.t)...)
+	}
+	// string spellings: the reference is the same instant handed over as a time.Time (metamorphic)
+	type sv struct {
+		s      string
+		layout string
+	}
+	strs := []sv{{"1970-01-01", "2006-01-02"}, {"1970-01-01 00:00:00", "2006-01-02 15:04:05"}, {"1970-01-01T00:00:00Z", time.RFC3339}, {"2024-02-29", "2006-01-02"},
+		{"1969-07-20 20:17:40", "2006-01-02 15:04:05"}, {"2001-09-09T01:46:40Z", time.RFC3339}, {"1999-12-31 23:59:59", "2006-01-02 15:04:05"}}
+	formats := []string{"Y-m-d H:i:s", "D, d M Y", "U", "d/m/y g:i a", "c"}
+	render := func(v interface{}, f string) string {
+		o, err := eng.Render("date", map[string]interface{}{"d": v, "f": f})
+		if err != nil {
+			return "ERR"
+		}
+		return o
+	}
+	type obs struct {
+		where string
+		c     Case
+		v     interface{}
+		f     string
+		out   string
+	}
+	var all []obs
+	for _, d := range vals {
+		for _, f := range formats {
+			res.Evaluations++
+			res.Hist["stream:date-values"]++
+			c := Case{"stream": "date-values", "kind": "date-value", "value": d.name, "fmt": hx(f)}
+			got := render(d.v, f)
+			all = append(all, obs{"date filter on " + d.name, c, d.v, f, got})
+			want := d.t.Format(twig.VerifConvertDateFormat(f))
+			if got != want && f != "U" && f != "c" { // U and c have no Go layout: covered by the second render below
+				res.add(Finding{Kind: "oracle", Where: "date filter on a fixed instant: " + d.name, Case: c, Expected: hx(want), Observed: hx(got),
+					Detail: "{{ d|date(f) }} of a fixed time value is not that value in the requested format"})
+			}
+		}
+	}
+	for _, s := range strs {
+		t, err := time.Parse(s.layout, s.s)
+		if err != nil {
+			continue
+		}
+		for _, f := range formats {
+			res.Evaluations++
+			res.Hist["stream:date-values"]++
+			c := Case{"stream": "date-values", "kind": "date-value", "value": "string " + s.s, "fmt": hx(f)}
+			got := render(s.s, f)
+			all = append(all, obs{"date filter on the string " + s.s, c, s.s, f, got})
+			// the engine reads such a string in its own zone convention: compare with the instant read as UTC and as local time
+			asUTC, asLocal := render(t, f), render(time.Date(t.Year(), t.Month(), t.Day(), t.Hour(), t.Minute(), t.Second(), 0, time.Local), f)
+			if got != asUTC && got != asLocal {
+				res.add(Finding{Kind: "oracle", Where: "date filter on the string " + s.s, Case: c, Expected: hx(asUTC), Observed: hx(got),
+					Detail: "a date given as text is not rendered like the same instant given as a time value"})
+			}
+		}
+	}
+	time.Sleep(1100 * time.Millisecond)
+	for _, o := range all {
+		res.Evaluations++
+		if again := render(o.v, o.f); again != o.out {
+			res.add(Finding{Kind: "oracle", Where: o.where, Case: o.c, Expected: hx(o.out), Observed: hx(again),
+				Detail: "two renders of a fixed date value, 1.1 s apart, differ: the output follows the clock"})
+		}
+	}
+	res.sample(map[string]interface{}{"stream": "date-values", "values": len(vals) + len(strs), "formats": formats, "example": all[0].out}, 20)
 }
